@@ -1426,6 +1426,18 @@ def family_frontend():
                          '\tvrt.A("C15,C14", Inject().S == "a,b|x", "renaming a local of a copied function leaves equally spelled field selectors alone")\n\tvrt.Cover("zoo-checked")\n}\n'),
     }
     specs.append(RawSpec(files, 'copied function with a local named like an import of the generated file and struct fields spelled like that local and like its replacement', family='frontend', compile_props=['C01', 'C15', 'C14']))
+    # --- a copied function whose local must be renamed while the first replacement name is taken by a parameter, a
+    #     result or another local of the same function (D18)
+    files = {
+        'providers.go': 'package {PKG}\n\ntype Out struct{ S string }\n\nfunc NewOut() Out { return Out{S: viaParam([]string{"a", "b"}) + "/" + viaLocal() + "/" + viaResult()} }\n',
+        'wire.go': ('//go:build wireinject\n// +build wireinject\n\npackage {PKG}\n\nimport (\n\tstr "strings"\n\n\t"github.com/google/wire"\n)\n\nfunc Inject() Out {\n\tpanic(wire.Build(NewOut))\n}\n\n'
+                    'func viaParam(strings2 []string) string {\n\tstrings := str.ToUpper("x")\n\treturn strings + str.Join(strings2, ",")\n}\n\n'
+                    'func viaLocal() string {\n\tstrings2 := "l"\n\tstrings := str.ToUpper("y")\n\treturn strings + strings2\n}\n\n'
+                    'func viaResult() (strings2 string) {\n\tstrings := str.ToUpper("z")\n\tstrings2 = strings + "r"\n\treturn\n}\n'),
+        'zz_driver.go': ('//go:build !wireinject\n// +build !wireinject\n\npackage {PKG}\n\nimport "example.com/corpus/vrt"\n\nfunc VDrive() {\n'
+                         '\tvrt.A("C15,C14", Inject().S == "Xa,b/Yl/Zr", "a renamed local of a copied function does not capture a parameter, a result or another local")\n\tvrt.Cover("zoo-checked")\n}\n'),
+    }
+    specs.append(RawSpec(files, 'copied functions whose local is renamed while its first replacement name is a parameter / another local / a named result', family='frontend', compile_props=['C01', 'C15', 'C14']))
     # --- two injector files that use one identifier for two different packages; each has a copied helper calling into its package
     files = {
         'providers.go': 'package {PKG}\n\ntype Label struct{ S string }\ntype Secret struct{ S string }\n\nfunc NewLabel() Label   { return Label{S: encodeLabel("a")} }\nfunc NewSecret() Secret { return Secret{S: encodeSecret("a")} }\n',
